@@ -67,7 +67,10 @@ def multitarget_rule(build_inputs, buildfile, targets, deps=None,
     if len(targets) > 1:
         first = targets[0]
         primary = _get_path(first).addext('.stamp')
-        buildfile.rule(target=targets, deps=[primary])
+        # Give this rule a (no-op) recipe so that make re-checks the targets'
+        # timestamps once the stamp file has been rebuilt; otherwise, steps
+        # depending on these targets aren't rebuilt until the *next* run.
+        buildfile.rule(target=targets, deps=[primary], recipe=[Silent([':'])])
         recipe = listify(recipe) + [Silent([ 'touch', qvar('@') ])]
         if clean_stamp:
             build_inputs.add_target(file_types.File(primary))
